@@ -352,6 +352,16 @@ func (f *Frame) execUnOp(ins *ssa.UnOp, st *State) {
 			u.assume(st, typeFacts(v.T, elem))
 			u.assume(st, u.ptrBound(v.T, elem))
 		}
+		// assumed facts about library globals (e.g. badger.DefaultIteratorOptions)
+		if g, isG := ins.X.(*ssa.Global); isG && g.Pkg != nil {
+			if fact, ok := u.eng.GlobalFacts[g.Pkg.Pkg.Name()+"."+g.Name()]; ok {
+				env := f.pointEnv(st, ins.Block(), -1, map[string]TV{"v": {T: v.T, Ty: elem}})
+				if t, ok := env.Bool(fact, "global "+g.Name()); ok {
+					u.assume(st, t)
+					u.AssumedUse["global "+g.Pkg.Pkg.Name()+"."+g.Name()+" has its library default value"] = true
+				}
+			}
+		}
 		// function-valued cells
 		if x.LV != nil && x.LV.Kind == "cell" && u.cellFns != nil {
 			if fv, ok := u.cellFns[x.LV.Cell]; ok {
